@@ -20,7 +20,7 @@ LEVEL_TEXT = ("Exceptional postconditions proved: TimeKeeper.__init__ raises Sys
               "pattern without a match stop the constructors; scan_file_times is proved to read every file in order for fixed file/frame-count shapes, forcing_steps to build the step tables. "
               "NOT proved (bounded fault injection): the file-reading loop for an arbitrary number of files, the refusal of a continuous release without any tick in the window, "
               "the real pandas/netCDF4/yaml behaviour behind the assumed contracts.")
-LEVEL_NOTE = "every fault kind the property lists has a proved exceptional postcondition on the function that refuses it (library calls under assumed contracts); bounded only: scan loop beyond the fixed shapes, continuous-release refusal, real library behaviour (24 single faults x 8 base scenarios injected on the real start-up path)"
+LEVEL_NOTE = "every fault kind the property lists has a proved exceptional postcondition on the function that refuses it (library calls under assumed contracts); bounded only: scan loop beyond the fixed shapes, continuous-release refusal, real library behaviour (25 single faults x 8 base scenarios injected on the real start-up path)"
 TECHNIQUE = "contract-based deductive verification of raise conditions (exceptional postconditions) + bounded single-fault injection on the real start-up path"
 EXPLANATION = "Raise conditions proved function by function for every listed fault kind; the real start-up path is fault-injected in addition."
 ASSUMPTIONS = ["netCDF4/pandas/yaml raise the documented exceptions on missing or malformed files"]
